@@ -42,8 +42,13 @@ def call(eng, st, canon, node, guard):
         a = args[0]
         if isinstance(a, Ref) and eng.is_set(st, a):
             USED.add("len(set) = cardinality (uninterpreted, >= 0)")
-            cnt = sx.CARD(eng.sel(st, a))
+            sarr = eng.sel(st, a)
+            cnt = sx.CARD(sarr)
+            x_, y_ = z3.Int("ca!%d" % next(sx._fresh)), z3.Int("cb!%d" % next(sx._fresh))
             st.pc.append(cnt >= 0)
+            # facts about cardinality that the verified code relies on (trusted): fewer than 2 members => no two distinct
+            st.pc.append(z3.Implies(cnt < 2, z3.ForAll([x_, y_], z3.Implies(z3.And(z3.Select(sarr, x_), z3.Select(sarr, y_)),
+                                                                            x_ == y_))))
             return cnt
         if isinstance(a, Ref):
             return eng.ref_len(st, a)
